@@ -12,6 +12,6 @@ ASSUME NoStdNeutralForStdFree
 ASSUME NoStdRejectsStdUsers
 
 Emit == Done => PrintT(<<"REPLAY", ToJson([base |-> IndexOfCfg(cfg), cfg |-> cfg, success |-> Success(cfg),
-                                            eff |-> Eff(cfg), nerrs_fixed |-> (Cardinality(ErrCounts(cfg)) = 1),
+                                            eff |-> Eff(cfg), exit_fixed |-> ExitFixed(cfg),
                                             expect |-> Expectation])>>)
 =============================================================================
